@@ -135,12 +135,21 @@ class FakeClient:
         lat = self._lat('scatter_lat', k)
         out = self.lp.create_future()
         futs = []
-        for x in data:
+        # like distributed.Client.scatter: collections are unpacked into one future per member (and handed back
+        # in a container of the same kind), anything else is one object and comes back as one future
+        single = not isinstance(data, (list, tuple, set, frozenset, range)) and not hasattr(data, '__next__')
+        for x in ([data] if single else data):
             f = self._new()
             f._finish(result=x)
             futs.append(f)
         self.rec.rec('scatter', tuple(f.key for f in futs))
-        self.lp.call_later(lat, lambda: out.done() or out.set_result(futs))
+        if single:
+            res = futs[0]
+        elif isinstance(data, (tuple, set, frozenset)):
+            res = type(data)(futs)
+        else:
+            res = futs
+        self.lp.call_later(lat, lambda: out.done() or out.set_result(res))
         return out
 
     def gather(self, x, asynchronous=True, **kw):
